@@ -84,7 +84,7 @@ def dispatch(ctx):
             ctx.ok(c, fn, routine="iterative (Shirokov)" if called else "closed form (Hitzer)")
 
 
-@rule("C07.closed-forms", props=["C07"], min_instances=18, mutants=[
+@rule("C07.closed-forms", props=["C07", "C19"], min_instances=18, mutants=[
     ("d=4 selects grades (3,) only", ("codegen", "num = xconj * (x_xconj - 2 * x_xconj.grade(3, 4))", "num = xconj * (x_xconj - 2 * x_xconj.grade(3))")),
     ("d=3 without the reversion", ("codegen", "        num = xconj * ~(x * xconj)", "        num = xconj * (x * xconj)")),
     ("d=2 uses the reverse", ("codegen", "    elif d == 2:\n        num = x.conjugate()", "    elif d == 2:\n        num = x.reverse()")),
@@ -192,7 +192,7 @@ def shirokov_degree(ctx):
                              f"reached and the result is not an inverse", assigns[0])
 
 
-@rule("C07.shirokov-recursion", props=["C07", "C13"], min_instances=5, mutants=[
+@rule("C07.shirokov-recursion", props=["C07", "C13", "C19"], min_instances=5, mutants=[
     ("the last step is recognised by the stored grades only", ("codegen", "        if i == n or xi.grades == (0,):", "        if xi.grades == (0,):")),
     ("coefficient c_k without the factor n/k", ("codegen", "        cs.append(s if (s := xi.e) == 0 else n * s / i)", "        cs.append(s if (s := xi.e) == 0 else n * s)")),
     ("correction uses the wrong power", ("codegen", "            power_idx = i - j - 2", "            power_idx = i - j - 1 if i - j - 1 < len(powers) - 1 else i - j - 2")),
@@ -268,6 +268,9 @@ def shirokov_recursion(ctx):
 @rule("C07.div-order", props=["C07"], min_instances=3, mutants=[
     ("division multiplies on the wrong side", ("codegen", "    num = num if x is None else x * num", "    num = num if x is None else num * x")),
     ("division inverts the left operand", ("codegen", "    num, denom = codegen_inv(y, x, symbolic=True)\n    if not denom:", "    num, denom = codegen_inv(x, y, symbolic=True)\n    if not denom:")),
+    ("an empty left operand counts as no left operand", ("codegen", "    num = num if x is None else x * num", "    num = x * num if x else num")),
+], rewrites=[
+    ("an empty left operand is returned as it is", ("codegen", "    num = num if x is None else x * num", "    num = num if x is None else (x * num if x else x)")),
 ])
 def div_order(ctx):
     """a / b = a * b.inv(): numerator gp(a, NUM(b)), denominator that of b (OPT + structure)."""
@@ -275,23 +278,56 @@ def div_order(ctx):
     q = "codegen.codegen_inv"
     fn = ctx.func(q)
     x, y = T.var("x"), T.var("y")
+    def mentions(t, name):
+        return any(l[0] == "v" and l[1] == name or (l[0] == "o" and any(isinstance(a, T) and mentions(a, name) for a in l[2]))
+                   for w in t.terms for l in w)
+
+    def without(t, name):
+        """The value of the tree when the variable is the empty multivector (= 0): every word it occurs in vanishes."""
+        if any(l[0] == "o" and any(isinstance(a, T) and mentions(a, name) for a in l[2]) for w in t.terms for l in w):
+            raise NoValue(f"{name} inside an opaque operator")
+        return T({w: c for w, c in t.terms.items() if not any(l[0] == "v" and l[1] == name for l in w)}, t.cls)
+
     for d in (2, 3):
         it = tree_interp(repo, d)
-        it2 = tree_interp(repo, d)
         try:
             plain = it.run(q, [y], {"symbolic": True})
-            withx = it2.run(q, [y, x], {"symbolic": True})
         except NoValue as exc:
             raise Unknown(q, str(exc), fn)
-        c = f"{q}#with-left-operand,d={d}"
-        if plain[0] != "return" or withx[0] != "return":
-            raise Unknown(c, f"{plain} / {withx}", fn)
-        (n0, d0), (n1, d1) = plain[1], withx[1]
-        if isinstance(n0, T) and isinstance(n1, T) and n1 == x.gp(n0) and d0 == d1:
-            ctx.ok(c, fn, numerator=repr(n1))
-        else:
-            ctx.violation(c, f"codegen_inv(y, x) has numerator [{n1!r}], expected x * NUM(y) = [{x.gp(n0)!r}] with the "
-                             f"denominator of y: a / b is not a * b.inv()", fn)
+        # bool(x) of a multivector is "has stored blades": a branch on the truth value of the left operand is followed
+        # both ways - non-empty x, and the empty multivector (whose quotient is 0)
+        for nonempty in (True, False):
+            c = f"{q}#with-left-operand,d={d}" + ("" if nonempty else ",empty left operand")
+            it2 = tree_interp(repo, d)
+            asked = []
+
+            def t_truth(t, nonempty=nonempty, asked=asked):
+                if t == x:
+                    asked.append(1)
+                    return nonempty
+                raise NoValue("truth value of a multivector-typed value")
+            it2.t_truth = t_truth
+            try:
+                withx = it2.run(q, [y, x], {"symbolic": True})
+            except NoValue as exc:
+                raise Unknown(c, str(exc), fn)
+            if not nonempty and not asked:
+                continue            # the function never looks at the truth value of x: covered by the first run
+            if plain[0] != "return" or withx[0] != "return":
+                raise Unknown(c, f"{plain} / {withx}", fn)
+            (n0, d0), (n1, d1) = plain[1], withx[1]
+            if not (isinstance(n0, T) and isinstance(n1, T)):
+                raise Unknown(c, f"numerators {n0!r} / {n1!r}", fn)
+            want = x.gp(n0)
+            try:
+                same = (n1 == want) if nonempty else (without(n1, "x") == without(want, "x"))
+            except NoValue as exc:
+                raise Unknown(c, str(exc), fn)
+            if same and d0 == d1:
+                ctx.ok(c, fn, numerator=repr(n1))
+            else:
+                ctx.violation(c, f"codegen_inv(y, x) has numerator [{n1!r}], expected x * NUM(y) = [{want!r}] with the "
+                                 f"denominator of y" + ("" if nonempty else " (x the empty multivector, i.e. 0)") + ": a / b is not a * b.inv()", fn)
     # codegen_div passes (y, x) to codegen_inv and lists its arguments in operand order
     q2 = "codegen.codegen_div"
     fn2 = ctx.func(q2)
@@ -430,6 +466,7 @@ def lambdify_input(ctx):
             it.t_truth = lambda t: bool(t.terms)
             it.tvar_facts = {"__len__": {"x": 4, "y": ylen}}      # how many blades the operands store
             ref = tree_interp(repo, d)
+            ref.t_truth = it.t_truth       # the operands of this cell have stored blades; C07.div-order follows the empty one
             ref.tvar_facts = {"__len__": {"x": 4, "y": ylen}}
             try:
                 out = it.run(q, list(args))
